@@ -43,20 +43,21 @@ type Crash struct {
 }
 
 type Run struct {
-	ID     string            `json:"id"`
-	Hash   string            `json:"hash"`
-	NH     int               `json:"nh"`
-	Init   []Call            `json:"init"`
-	Progs  map[string][]Call `json:"progs"`
-	Auto   map[string]bool   `json:"auto"`
-	Sched  []int             `json:"sched"`
-	Expect []Expect          `json:"expect"`
-	Crash  []Crash           `json:"crash"`
-	Tail   string            `json:"tail"` // "rr" (round robin), "seq", "random", "pct"
-	Seed   int64             `json:"seed"`
-	PCTd   int               `json:"pctd"`
-	Skip   bool              `json:"skipnamecheck"`
-	Pre    bool              `json:"preopen"` // every handle opens the stack during set-up (as in StackProto\'s Init)
+	ID      string            `json:"id"`
+	Hash    string            `json:"hash"`
+	NH      int               `json:"nh"`
+	Init    []Call            `json:"init"`
+	Progs   map[string][]Call `json:"progs"`
+	Auto    map[string]bool   `json:"auto"`
+	Sched   []int             `json:"sched"`
+	Expect  []Expect          `json:"expect"`
+	Crash   []Crash           `json:"crash"`
+	Tail    string            `json:"tail"` // "rr" (round robin), "seq", "random", "pct"
+	Seed    int64             `json:"seed"`
+	PCTd    int               `json:"pctd"`
+	Skip    bool              `json:"skipnamecheck"`
+	NoMarks bool              `json:"nomarks"` // transactions without marker refs (tables can become empty under compaction; no transaction accounting)
+	Pre     bool              `json:"preopen"` // every handle opens the stack during set-up (as in StackProto\'s Init)
 }
 
 type Out struct {
@@ -149,8 +150,11 @@ func classify(err error) string {
 	return "other"
 }
 
-func marksOf(c Call) []int {
+func (r *runner) marksOf(c Call) []int {
 	m := []int{}
+	if r.run.NoMarks {
+		return m
+	}
 	for i, p := range c.Parts {
 		if len(p) > 0 {
 			m = append(m, c.Txn*10+i)
@@ -159,14 +163,16 @@ func marksOf(c Call) []int {
 	return m
 }
 
-func recsOf(c Call) [][2]string {
+func (r *runner) recsOf(c Call) [][2]string {
 	out := [][2]string{}
 	for i, p := range c.Parts {
 		if len(p) == 0 {
 			continue
 		}
 		out = append(out, p...)
-		out = append(out, [2]string{fmt.Sprintf("%s%d", markPrefix, c.Txn*10+i), "m"})
+		if !r.run.NoMarks {
+			out = append(out, [2]string{fmt.Sprintf("%s%d", markPrefix, c.Txn*10+i), "m"})
+		}
 	}
 	return out
 }
@@ -175,7 +181,7 @@ func (r *runner) tableWriter(st *reftable.Stack, idx uint64, part [][2]string, m
 	hs := r.cfg.HashID.Size()
 	return func(w *reftable.Writer) error {
 		recs := append([][2]string{}, part...)
-		if len(recs) > 0 {
+		if len(recs) > 0 && !r.run.NoMarks {
 			recs = append(recs, [2]string{fmt.Sprintf("%s%d", markPrefix, mark), "m"})
 		}
 		sort.Slice(recs, func(i, j int) bool { return recs[i][0] < recs[j][0] })
@@ -212,7 +218,7 @@ func (r *runner) tableWriterRange(lo, hi uint64, part [][2]string, mark int) fun
 // doCall performs one API call on handle h and logs call / ret / view events.
 func (r *runner) doCall(h int, c Call) {
 	hst := r.hs[h]
-	sched.LogCur(sched.Event{"ev": "call", "h": h, "op": c.Op, "txn": c.Txn, "marks": marksOf(c), "recs": recsOf(c)})
+	sched.LogCur(sched.Event{"ev": "call", "h": h, "op": c.Op, "txn": c.Txn, "marks": r.marksOf(c), "recs": r.recsOf(c)})
 	res, msg := "ok", ""
 	func() {
 		defer func() {
@@ -551,7 +557,7 @@ func (r *runner) doCallFinal() {
 	}()
 	sched.LogCur(sched.Event{"ev": "ret", "h": 0, "res": res, "err": msg, "op": "open"})
 	if hst.st != nil {
-		r.view(0, true)
+		r.view(0, !r.run.NoMarks)
 		// closing the final handle must not disturb anything either
 		sched.LogCur(sched.Event{"ev": "call", "h": 0, "op": "close", "txn": 0, "marks": []int{}, "recs": [][2]string{}})
 		hst.st.Close()
